@@ -684,8 +684,8 @@ def _reqline(rng):
 
 
 def gen_cases(rng, tier):
-    n_streams = {"quick": 1000, "thorough": 14000, "search": 1500}[tier]
-    n_lines = {"quick": 1000, "thorough": 10000, "search": 300}[tier]
+    n_streams = {"quick": 2000, "thorough": 20000, "search": 1500}[tier]
+    n_lines = {"quick": 2000, "thorough": 10000, "search": 300}[tier]
     for _ in range(n_lines):
         yield _reqline(rng)
     for i in range(n_streams):
